@@ -15,6 +15,7 @@ import (
 	sutils "github.com/siglens/siglens/pkg/segment/utils"
 	"github.com/siglens/siglens/pkg/segment/query"
 	"github.com/siglens/siglens/pkg/segment/writer"
+	"github.com/siglens/siglens/pkg/segment/writer/metrics"
 	"github.com/siglens/siglens/pkg/segment/writer/metrics/wal"
 )
 
@@ -111,6 +112,23 @@ func mquery(op *plan.Op) (interface{}, error) {
 func init() {
 	extra["walread"] = walread
 	extra["mnames"] = mnames
+	extra["mrotate"] = mrotate
+}
+
+// mrotate: the size-based rotation of every open metrics segment (CheckAndRotate with the segment size limit
+// at one byte): new segment suffix, metrics meta entry written, tags tree kept (it rotates at most daily).
+func mrotate(op *plan.Op) (interface{}, error) {
+	saved := sutils.MAX_BYTES_METRICS_SEGMENT
+	sutils.MAX_BYTES_METRICS_SEGMENT = 1
+	defer func() { sutils.MAX_BYTES_METRICS_SEGMENT = saved }()
+	n := 0
+	for _, mSeg := range metrics.GetAllMetricsSegments() {
+		if err := mSeg.CheckAndRotate(false); err != nil {
+			return nil, err
+		}
+		n++
+	}
+	return map[string]interface{}{"segments": n}, nil
 }
 
 // walread runs the real WAL iterator of the given kind over one file and returns the decoded sequence.
